@@ -71,6 +71,10 @@ type closeEffect struct {
 	FreeVar int // index, -1 if none
 	Param   int // index, -1 if none
 	OnError bool
+	// Guarded: the close runs only under a condition that is neither the cleanup's error cell nor
+	// a nil test of the closed value (a stale copy of the error, a flag, ...): it cannot be
+	// counted as closing the resource
+	Guarded bool
 	Loop    bool          // closes the elements of a slice
 	LoopFn  *ssa.Function // function holding the loop
 	Call    ssa.CallInstruction
@@ -117,11 +121,31 @@ func closeEffects(fn *ssa.Function, errRef func(v ssa.Value) bool, depth int) []
 		}
 		return
 	}
+	otherGuard := func(b *ssa.BasicBlock) bool {
+		for _, f := range factsAt(b) {
+			if x, nn, ok := nilCheck(f.Cond); ok {
+				if lu, ok := x.(*ssa.UnOp); ok && lu.Op == token.MUL && errRef != nil && errRef(lu.X) && nn == f.Truth {
+					continue // the error cell itself
+				}
+				if !isErrorType(x.Type()) {
+					continue // `if c != nil { c.Close() }`
+				}
+				return true // a nil test of some other error value (a copy taken earlier)
+			}
+			if _, isCmp := f.Cond.(*ssa.BinOp); isCmp {
+				// loop bounds and the like are not guards of the close
+				continue
+			}
+			return true
+		}
+		return false
+	}
 	for _, c := range callsIn(fn) {
 		if recv, ok := methodCallNamed(c, "Close"); ok {
 			fv, prm, loop := target(recv)
 			if fv >= 0 || prm >= 0 {
-				out = append(out, closeEffect{FreeVar: fv, Param: prm, OnError: guardedOnErr(c.Block()), Loop: loop, LoopFn: fn, Call: c})
+				onErr := guardedOnErr(c.Block())
+				out = append(out, closeEffect{FreeVar: fv, Param: prm, OnError: onErr, Guarded: !onErr && otherGuard(c.Block()), Loop: loop, LoopFn: fn, Call: c})
 			}
 			continue
 		}
@@ -154,7 +178,8 @@ func closeEffects(fn *ssa.Function, errRef func(v ssa.Value) bool, depth int) []
 			if fv < 0 && prm < 0 {
 				continue
 			}
-			out = append(out, closeEffect{FreeVar: fv, Param: prm, OnError: se.OnError || guardedOnErr(c.Block()), Loop: se.Loop || loop, LoopFn: se.LoopFn, Call: se.Call})
+			onErr := se.OnError || guardedOnErr(c.Block())
+			out = append(out, closeEffect{FreeVar: fv, Param: prm, OnError: onErr, Guarded: !onErr && (se.Guarded || otherGuard(c.Block())), Loop: se.Loop || loop, LoopFn: se.LoopFn, Call: se.Call})
 		}
 	}
 	return out
@@ -538,9 +563,13 @@ func ownDisposition(r *Run, fn *ssa.Function, e *feEnd, acq *ssa.Call, R ssa.Val
 					}
 				}
 				if hit {
-					if eff.OnError {
+					switch {
+					case eff.OnError:
 						deferOnErr = true
-					} else {
+					case eff.Guarded:
+						// closes only under a condition that is not the function's error result (for
+						// instance a copy of it taken when the defer was registered): no guarantee
+					default:
 						deferAlways = true
 					}
 				}
